@@ -19,6 +19,12 @@ def nontrivial(case):
 
 
 def diagnose(chk, case):
+    if case["op"] == "transition":
+        items = [q.strip() for q in case["coq"][6:-1].split(";\n")]
+        vals = chk.coq_show(HEADER, items)
+        bad = [{"conjunct_index": k, "conjunct": q[:160], "value": v} for k, (q, v) in enumerate(zip(items, vals)) if "= 0" not in v]
+        return {"failing_conjuncts": bad[:8], "phases": case["input"].get("phases"),
+                "legend": "c08_class_is / c08_final / c08_iters: re-used solver vs fresh solver on the same user data; c08_traj / c08_same / c08_start: re-used solver vs twin (same data and updates, never solved): whole trajectory bitwise, first iterate bitwise, tau = kappa = 1 at the start"}
     if case["op"] == "timelimit":
         items = [q.strip() for q in case["coq"][6:-1].split(";\n")]
         vals = chk.coq_show(HEADER, items)
